@@ -155,11 +155,37 @@ pub fn oracle_c12(c: &TrCase, t: &Trained, bytes: &[u8], fails: &mut Vec<(String
                 texts.push(s.as_raw_text().to_string());
             }
         }
-        for text in texts {
-            let Ok(mut s) = Sentence::from_raw(text.clone()) else { continue };
+        // every text through a fresh sentence (variant 0) and through sentences that already carry 1, 2, … tags on every character
+        // (a corpus line that is tagged again: `from_tokenized` with as many tag slots as the predictor has categories, or more, or fewer)
+        // (a predictor without any tag category leaves the tag array alone — no listed property says otherwise — so no variants then)
+        let maxc = obs.values().map(|c| c.len()).max().unwrap_or(0);
+        let kmax = if maxc == 0 { 0 } else { maxc.min(3) + 1 };
+        let variants: Vec<(String, usize)> = texts.iter().flat_map(|t| (0..=kmax).map(move |k| (t.clone(), k))).collect();
+        for (text, variant) in variants {
+            let mut s = if variant == 0 {
+                let Ok(s) = Sentence::from_raw(text.clone()) else { continue };
+                s
+            } else {
+                let mut tk = String::new();
+                for (i, ch) in text.chars().enumerate() {
+                    if i > 0 {
+                        tk.push(' ');
+                    }
+                    if ch == ' ' || ch == '/' || ch == '\\' {
+                        tk.push('\\');
+                    }
+                    tk.push(ch);
+                    for j in 0..variant {
+                        tk.push_str(&format!("/旧{j}"));
+                    }
+                }
+                let Ok(s) = Sentence::from_tokenized(&tk) else { continue };
+                s
+            };
             p.predict(&mut s);
             s.fill_tags();
-            let chars: Vec<char> = text.chars().collect();
+            let text = if variant == 0 { text } else { format!("{text} (sentence object that carried {variant} tag(s) per character before predict + fill_tags)") };
+            let chars: Vec<char> = s.as_raw_text().chars().collect();
             for tok in s.iter_tokens() {
                 let surf = tok.surface();
                 let got: Vec<Option<String>> = tok.tags().iter().map(|t| t.as_ref().map(|x| x.to_string())).collect();
